@@ -19,7 +19,7 @@ RULE = (
     "filter's own gate admits, so a covariance that passes the invariant can never be legitimately refused by the next "
     "call). A history is truncated (not failed) when |P| leaves [1e-6,1e3] or |x| exceeds 100 (bounded dynamic range: prior/noise <= 2e4; nonlinear sensor Jacobians stay <= ~3e4 so that eps*|H|^2*|P| stays below the sensor noise). Non-trivial = >=5 executed steps with "
     "both predictions and updates on a model whose process Jacobian is singular or whose initial covariance is rank "
-    "deficient; distinct = sha1(case). The same kind of history (<= 25 steps, bounded range) is also run through the generated C++ filter (one compile per history): every covariance it returns from a valid one must be valid. A separate gate layer hands an identity-model filter covariances D C D whose per-state magnitudes span up to 13 decades, symmetric up to a perturbation of 1e-17..1e-14 of their largest entry: they must be accepted and returned unchanged (D16). A quarter of the cases are 'wide dynamic range' histories (prior L L^T up to ~1e6 with "
+    "deficient; distinct = sha1(case). The same kind of history (<= 25 steps, bounded range) is also run through the generated C++ filter (one compile per history): every covariance it returns from a valid one must be valid. A separate gate layer hands an identity-model filter covariances D C D whose per-state magnitudes span up to 13 decades, symmetric up to a perturbation of 1e-17..1e-14 of their largest entry: they must be accepted and returned unchanged up to 1e-9 of their magnitude (D16). A quarter of the cases are 'wide dynamic range' histories (prior L L^T up to ~1e6 with "
     "correlated states, sensor noise 1e-3..1e-1): there only the gate is judged: a refusal "
     "counts iff the refused input was symmetric/PSD to 1e-12 of its own magnitude; an output that is not strictly valid "
     "(accuracy there is eps*cond(S)*|prior|) truncates the history."
@@ -188,8 +188,10 @@ def gate_case(spec, ctx):
         where = ctxmod.formak_frame(e.__traceback__)
         ctx.fail(f"refused-valid-covariance:gate@{where}",
                  f"magnitudes 10**{spec['exps']}, asymmetry {spec['rel']:g} of max|P|={mx:g}: {str(e)[:200]}", spec)
-    if not np.array_equal(np.asarray(out.covariance.data, float), P):
-        ctx.fail("gate:identity-model-changed-covariance", "", spec)
+    # (an implementation may symmetrise or re-factor its result: equal up to rounding relative to the magnitude, not bitwise)
+    got = np.asarray(out.covariance.data, float)
+    if got.shape != P.shape or not np.all(np.abs(got - P) <= 1e-9 * mx):
+        ctx.fail("gate:identity-model-changed-covariance", f"max |P' - P| = {float(np.max(np.abs(got - P))) if got.shape == P.shape else got.shape!r} for max|P| = {mx:g}", spec)
     ctx.event(f"gate:decades={int(max(spec['exps']) - min(spec['exps']))}")
     if max(spec["exps"]) - min(spec["exps"]) >= 5 and spec["rel"] > 0:
         ctx.nontrivial(spec)
